@@ -74,10 +74,15 @@ def make_router(case_table, log, sigvariant):
     for t in TYPES:
         spec = case_table[t]
         for r in spec['registered']:
-            getattr(router, t)(r)(mk(t, r, sigvariant))
+            getattr(router, t)(CONCRETE.get(r, r))(mk(t, r, sigvariant))
         if spec['unknown']:
             getattr(router, t + '_unknown')()(mk(t, 'unknown', sigvariant))
     return router
+
+
+# The specification's route names are abstract; on the wire they are these texts: non-ASCII (a tag's length prefix counts BYTES of
+# its UTF-8 form, not characters), one a one-character extension of the other, passed as str the way applications write them.
+CONCRETE = {'r1': 'men\u00fc.item', 'r2': 'men\u00fc.items', 'rX': 'donn\u00e9es.\u00e9t\u00e9'}
 
 
 def table_for(c):
@@ -101,7 +106,7 @@ def metadata_for(c, nonce):
         auth = authenticate_simple('user', 'good-%d' % (nonce % 3)) if nonce % 2 else authenticate_bearer('good-token')
     elif c['auth'] == 'bad':
         auth = authenticate_simple('user', 'bad') if nonce % 2 else authenticate_bearer('bad-token')
-    rt = route(c['route'], 'second-tag') if c['route'] != 'none' else None
+    rt = route(CONCRETE.get(c['route'], c['route']), 'second-tag') if c['route'] != 'none' else None
     other = metadata_item(b'{"x":1}', WellKnownMimeTypes.APPLICATION_JSON)
     if c['pos'] == 'first':
         order = [rt, auth, other]
